@@ -1,4 +1,5 @@
 pub mod mcase;
+pub mod c01;
 pub mod c02;
 pub mod c03;
 pub mod gcase;
@@ -10,5 +11,5 @@ pub mod c17;
 use crate::engine::{DynProp, Wrap};
 
 pub fn all() -> Vec<Box<dyn DynProp>> {
-    vec![Box::new(Wrap(c02::C02)), Box::new(Wrap(c03::C03)), Box::new(Wrap(c04::C04)), Box::new(Wrap(c05::C05)), Box::new(Wrap(c06::C06)), Box::new(Wrap(c17::C17))]
+    vec![Box::new(Wrap(c01::C01)), Box::new(Wrap(c02::C02)), Box::new(Wrap(c03::C03)), Box::new(Wrap(c04::C04)), Box::new(Wrap(c05::C05)), Box::new(Wrap(c06::C06)), Box::new(Wrap(c17::C17))]
 }
